@@ -412,10 +412,12 @@ Proof.
   pose proof (run_stmt_gl log s st HG) as Hdef.
   destruct st; cbn [run_stmt] in *; try (cbn [e_batch]; rewrite app_nil_r; exact Hdef).
   - destruct (st_create_table s name _) as [s1 [u|e|]]; cbn [e_batch e_store] in *; rewrite app_nil_r; exact Hdef.
-  - destruct (insert_rows s table cols rows [] 0) as [[b' B] o] eqn:E. cbn [e_out e_batch e_store] in *.
+  - destruct (first_err _ rows) as [u|e|]; try (cbn [e_batch e_store] in *; rewrite app_nil_r; exact Hdef).
+    destruct (insert_rows s table cols rows [] 0) as [[b' B] o] eqn:E. cbn [e_out e_batch e_store] in *.
     destruct o; try discriminate. eapply log_insert_rows; [|exact E]. rewrite app_nil_r. exact HG.
   - destruct (existsb _ sets); [cbn [e_batch e_store] in *; rewrite app_nil_r; exact Hdef|].
     destruct (where_ids s table where_) as [ids|e|]; try (cbn [e_batch e_store] in *; rewrite app_nil_r; exact Hdef).
+    destruct (first_err _ ids) as [u|e|]; try (cbn [e_batch e_store] in *; rewrite app_nil_r; exact Hdef).
     destruct (update_rows s table _ _ ids []) as [[b' B] o] eqn:E. cbn [e_out e_batch e_store] in *.
     destruct o; try discriminate. eapply log_update_rows; [|exact E]. rewrite app_nil_r. exact HG.
   - destruct (where_ids s table where_) as [ids|e|]; try (cbn [e_batch e_store] in *; rewrite app_nil_r; exact Hdef).
